@@ -314,7 +314,7 @@ impl Scenario for DynSum {
                 let plan = *w.sh.plan.borrow();
                 let nchild = if w.with_bind { 4 } else { 2 };
                 for c in 0..nchild {
-                    let max = if c == C_VAR || c == C_MAP { 2 } else { 1 };
+                    let max = if c == C_VAR || c == C_MAP || c == C_SCOPE { 2 } else { 1 };
                     for m in 0..=max {
                         if m != plan[c] {
                             acts.push(A::Plan(c, m));
